@@ -47,7 +47,8 @@ import (
 )
 
 type vfC14Cert struct {
-	Kind     string `json:"kind"`                // pool | custom | generated | two
+	Kind     string `json:"kind"`                // pool | custom | generated | two | list
+	List     []int  `json:"list,omitempty"`      // list: pool indices of Configuration.Certificates, in order (1..3, mixed key types)
 	Index    int    `json:"index"`               // pool index (0..3 ECDSA, 4..5 RSA); key for custom
 	Serial   int64  `json:"serial,omitempty"`    // custom
 	CN       string `json:"cn,omitempty"`        // custom
@@ -74,6 +75,15 @@ func vfC14MakeCert(c vfC14Cert) (certs []Certificate, noCert bool, err error) {
 		return []Certificate{vfFamDCert(c.Index)}, false, nil
 	case "two":
 		return []Certificate{vfFamDCert(c.Index), vfFamDCert(c.Index + 1)}, false, nil
+	case "list":
+		if len(c.List) == 0 {
+			return nil, false, fmt.Errorf("empty certificate list")
+		}
+		var out []Certificate
+		for _, i := range c.List {
+			out = append(out, vfFamDCert(i))
+		}
+		return out, false, nil
 	case "generated":
 		return nil, true, nil
 	case "custom":
@@ -222,8 +232,8 @@ func vfC14Level(sdpText string) (session, mediaLevel int) {
 }
 
 const (
-	vfC14ConnectWatchdog = 15 * time.Second
-	vfC14RejectWatchdog  = 8 * time.Second
+	vfC14ConnectWatchdog = 8 * time.Second
+	vfC14RejectWatchdog  = 6 * time.Second
 )
 
 type vfC14Obs struct {
@@ -476,6 +486,19 @@ func vfC14Run(v *vfT, c vfC14Case) {
 		v.Skip(fmt.Sprintf("edit %s produced matches=%v", c.Mut, matches))
 	}
 	v.Label("mut=" + c.Mut)
+	for _, cc := range []vfC14Cert{c.OffCert, c.AnsCert} {
+		if cc.Kind == "list" {
+			v.Label(fmt.Sprintf("cert:list-len=%d", len(cc.List)))
+			if len(cc.List) > 1 && cc.List[0] >= vfFamDNumEC {
+				for _, i := range cc.List[1:] {
+					if i < vfFamDNumEC {
+						v.Label("cert:list-rsa-first-ecdsa-later")
+						break
+					}
+				}
+			}
+		}
+	}
 	v.Label("level=" + c.Level)
 	v.Label("victim=" + c.Victim)
 	if c.VerifyDisabled {
@@ -528,7 +551,20 @@ func vfC14Run(v *vfT, c vfC14Case) {
 			v.Logf("C14 %+v: %v", c, sigErr)
 			return
 		}
-		if pair.WaitConnected(vfC14ConnectWatchdog) {
+		// bounded, and ended at once by a failed/closed DTLS transport on either side: a pair that
+		// is not going to connect must not cost the whole watchdog (rapid re-runs it while shrinking)
+		dtlsDead := func() bool {
+			for _, pc := range []*PeerConnection{pair.Off, pair.Ans} {
+				if st := pc.dtlsTransport.State(); st == DTLSTransportStateFailed || st == DTLSTransportStateClosed {
+					return true
+				}
+			}
+			return false
+		}
+		vfFamDWaitFor(vfC14ConnectWatchdog, func() bool {
+			return dtlsDead() || (pair.Off.ConnectionState() == PeerConnectionStateConnected && pair.Ans.ConnectionState() == PeerConnectionStateConnected)
+		})
+		if !dtlsDead() && pair.WaitConnected(0) {
 			if matches {
 				v.Label("match:connected")
 			} else {
@@ -543,6 +579,7 @@ func vfC14Run(v *vfT, c vfC14Case) {
 			}
 		} else {
 			_, dead, _, pcDead, _, _, _ := obs.snapshot()
+			dead = dead || dtlsDead()
 			checkAdvertised()
 			switch {
 			case matches && (dead || pcDead):
@@ -626,7 +663,20 @@ func vfC14Run(v *vfT, c vfC14Case) {
 // ---- generators ---------------------------------------------------------------------------
 
 func vfC14GenCert(v *vfT, name string) vfC14Cert {
-	switch rapid.SampledFrom([]string{"pool", "pool", "pool", "custom", "custom", "generated", "two"}).Draw(v.R, name+"_kind") {
+	switch rapid.SampledFrom([]string{"pool", "pool", "custom", "generated", "two", "list", "list", "list"}).Draw(v.R, name+"_kind") {
+	case "list":
+		// Configuration.Certificates of length 1..3, ECDSA and RSA keys in a drawn order
+		perm := rapid.Permutation([]int{0, 1, 2, 3, 4, 5}).Draw(v.R, name+"_list")
+		n := rapid.IntRange(1, 3).Draw(v.R, name+"_list_len")
+		if rapid.Bool().Draw(v.R, name+"_rsa_first") && perm[0] < vfFamDNumEC {
+			for k, idx := range perm {
+				if idx >= vfFamDNumEC {
+					perm[0], perm[k] = perm[k], perm[0]
+					break
+				}
+			}
+		}
+		return vfC14Cert{Kind: "list", List: append([]int{}, perm[:n]...)}
 	case "pool":
 		return vfC14Cert{Kind: "pool", Index: rapid.IntRange(0, vfFamDNumEC+vfFamDNumRSA-1).Draw(v.R, name+"_idx")}
 	case "two":
